@@ -307,6 +307,12 @@ fn principal_texts(e: &syn::Expr, out: &mut Vec<String>) {
                 principal_texts(x, out)
             }
         }
+        // the value of a match is the value of its arms
+        syn::Expr::Match(m) => {
+            for a in &m.arms {
+                principal_texts(&a.body, out);
+            }
+        }
         syn::Expr::MethodCall(mc) if mc.method == "into" => principal_texts(&mc.receiver, out),
         syn::Expr::Paren(p) => principal_texts(&p.expr, out),
         syn::Expr::Call(c) if c.args.len() == 1 => {
